@@ -68,6 +68,7 @@ class Sim:
         self.n_event_ids = 0
         self.truth: Dict[str, List[Any]] = {"stream_sync": [], "ctx_sync": [], "event_sync": [], "stream_wait": [], "launch": []}
         self.ops_pool = p["ops_pool"] or (OPS[:3] if p["repeat_names"] else OPS)
+        self.helper = {"t": 0, "tid": self.host_pid + 7, "streams": self.streams}
 
     # ------------------------------------------------------------------ helpers
     def d(self, lo: int, hi: int) -> int:
@@ -242,6 +243,11 @@ class Sim:
         first = p["first_step"] if p["first_step"] is not None else self.r.randint(3, 900)
         for k in range(p["n_steps"]):
             ts = th["t"]
+            if p["sync_straddle"] and self.r.random() < 0.6 and ts - 1 >= self.helper["t"] and ts - 1 >= p["base"]:
+                # a helper thread issues a device / stream synchronisation 1us before the step opens: its cuda_sync event
+                # lies inside the step's window, the host call outside
+                self.helper["t"] = ts - 1
+                (self.dev_sync if self.r.random() < 0.7 else self.stream_sync)(self.helper)
             e = self.X("user_annotation", f"ProfilerStep#{first + k}", self.host_pid, th["tid"], ts, 0, {})
             th["t"] += self.r.choice([0, 1])
             for _ in range(self.r.randint(*p["ops_per_step"])):
@@ -379,7 +385,7 @@ def random_params(rnd: random.Random, tier: str, **over: Any) -> Dict[str, Any]:
         big_corr=rnd.random() < 0.3, autograd=rnd.random() < 0.3, bwd_annotation=rnd.random() < 0.6,
         pre_ops=rnd.choice([0, 1, 2]), post_ops=rnd.choice([0, 1, 2]),
         file_order=rnd.choice(["time", "time", "grouped", "shuffled"]), repeat_names=rnd.random() < 0.3,
-        annotation_nest=rnd.random() < 0.3, p_unlaunched=rnd.choice([0.0, 0.0, 0.1]),
+        annotation_nest=rnd.random() < 0.3, p_unlaunched=rnd.choice([0.0, 0.0, 0.1]), sync_straddle=rnd.random() < 0.3,
     )
     if p["autograd"]:
         p["n_threads"] = max(2, p["n_threads"])
